@@ -8,7 +8,8 @@ a scratch worktree (/tmp/mut/wt), never in /repo.  A mutant that still compiles 
 suite (lib tests, then doc tests) is handed to the quick checks of the properties anchored in that file (plus C01 and
 C18, which run the whole operator catalogue), built from a scratch copy of the harness that depends on the worktree.
 Result per mutant: stillborn | killed-by-suite | killed-by-check <id> <signature> | inconclusive | survived.
-Everything is written to /tmp/mut/results.jsonl; the scratch directories are removed at the end (keep: MUT_KEEP=1).
+Results are appended to /verif/mutation/results.jsonl (a re-run skips what is already there); the scratch directories
+are removed at the end (keep: MUT_KEEP=1).
 """
 import json, os, random, re, shutil, subprocess, sys, time
 
@@ -107,8 +108,8 @@ def suite_passes():
         return False, "doc tests" if rc != 124 else "doc tests hang"
     return True, ""
 
-def run_checks(ids):
-    rc, o = sh("cargo build --release --offline -q", cwd=H, timeout=1800)
+def run_checks(ids, build=True):
+    rc, o = sh("cargo build --release --offline -q", cwd=H, timeout=1800) if build else (0, "")
     if rc != 0:
         return "inconclusive", "harness build failed: " + o[-300:]
     env = dict(ENV, VERIF_DIR="/verif", RXV_OUT_DIR=OUT, VERIF_SEED="1")
@@ -130,10 +131,18 @@ def main():
     rnd.shuffle(all_sites)
     sample = all_sites[:N]
     print(f"{len(all_sites)} mutation sites in {len(anch)} anchored files; sampling {len(sample)} (seed {SEED})", flush=True)
+    done = set()
+    keep = "/verif/mutation/results.jsonl"
+    os.makedirs("/verif/mutation", exist_ok=True)
+    if os.path.exists(keep):
+        for l in open(keep):
+            j = json.loads(l); done.add((j["file"], j["line"], j["mutation"], j["after"]))
     setup()
-    res = open(ROOT + "/results.jsonl", "a")
+    res = open(keep, "a")
     tally = {}
     for k, (f, i, old, new, what) in enumerate(sample):
+        if (f, i + 1, what, new.strip()) in done:
+            continue
         p = os.path.join(WT, f)
         src = open(p).read().split("\n")
         assert src[i] == old
@@ -150,6 +159,12 @@ def main():
             else:
                 ids = sorted(anch[f] | {"C01", "C18"})
                 status, info = run_checks(ids)
+                if status == "survived":
+                    # not seen by the checks of the properties anchored in this file: try every other check
+                    rest = [f"C{n:02d}" for n in range(1, 21) if f"C{n:02d}" not in ids]
+                    status, info = run_checks(rest, build=False)
+                    if status == "killed-by-check":
+                        status, info = "killed-by-other-check", info
         subprocess.run(f"git -C {WT} checkout -q -- .", shell=True)
         rec = {"file": f, "line": i + 1, "mutation": what, "before": old.strip(), "after": new.strip(), "status": status, "info": info, "secs": round(time.time() - t0)}
         res.write(json.dumps(rec) + "\n"); res.flush()
